@@ -189,3 +189,82 @@ func mappingHandlerOnce(n int) (closed bool, panics []string) {
 	_ = h.GetMappingID() + h.GetProtocol()
 	return h.IsClosed(), panics
 }
+
+// ============================================================================
+// rmt: ResourceManager.DisposeWithTimeout (graceful shutdown with a deadline)
+//   rmt slow <0|1> rep <K> ms <seed>
+//     slow 1: the only resource's Dispose is parked until DisposeWithTimeout has returned its
+//             timeout result, then it is unblocked;  slow 0: Dispose returns at once
+//   obs: timedout <0|1> disposed <Dispose calls> live <goroutines of DisposeWithTimeout still alive>
+// ============================================================================
+
+type gatedRes struct {
+	n       atomic.Int32
+	entered chan struct{}
+	release chan struct{}
+}
+
+func (g *gatedRes) Dispose() error {
+	g.n.Add(1)
+	select {
+	case <-g.entered:
+	default:
+		close(g.entered)
+	}
+	<-g.release
+	return nil
+}
+
+func runRmt(t []string) string {
+	slow, rep := atoi(t[2]), atoi(t[4])
+	var first string
+	for it := 0; it < rep; it++ {
+		obs := rmtOnce(slow)
+		if it == 0 {
+			first = obs
+		}
+		if obs != first {
+			return obs
+		}
+	}
+	return first
+}
+
+func rmtOnce(slow int) string {
+	const helper = "(*ResourceManager).DisposeWithTimeout"
+	before := countStacks(helper)
+	rm := dispose.NewResourceManager()
+	r := &gatedRes{entered: make(chan struct{}), release: make(chan struct{})}
+	rm.Register("slow", r)
+	timeout := patient() // the disposal wins
+	if slow == 1 {
+		timeout = 20 * time.Millisecond
+	} else {
+		close(r.release)
+	}
+	var res *dispose.DisposeResult
+	out := withWatchdog(2*patient(), func() string { res = rm.DisposeWithTimeout(timeout); return "ok" })
+	if out != "ok" {
+		return out
+	}
+	timedOut := 0
+	for _, e := range res.Errors {
+		if e.ResourceName == "timeout" {
+			timedOut = 1
+		}
+	}
+	if slow == 1 {
+		select {
+		case <-r.entered:
+		case <-time.After(patient()):
+			return "timeout dispose never started"
+		}
+		close(r.release) // unblock the pending I/O
+	}
+	waitFor(func() bool { return countStacks(helper) <= before }, leakWait())
+	live := countStacks(helper) - before
+	if live < 0 {
+		live = 0
+	}
+	return fmt.Sprintf("timedout %d disposed %d live %d", timedOut, r.n.Load(), live)
+}
